@@ -23,7 +23,19 @@ for d in sorted(os.listdir(os.path.join(V, "seeded"))):
     vio = [l for l in r.stdout.splitlines() if l.startswith("VIOLATION")]
     concrete = any("no-failing-input-found" not in l for l in vio)
     ok = r.returncode == 1 and bool(vio)
-    res[d] = {"property": pid, "rc": r.returncode, "violations": len(vio), "concrete_input": concrete, "wall_s": round(time.time() - t0)}
-    print("%-40s %s rc=%d violations=%d concrete=%s %ds" % (d, "CAUGHT" if ok else "MISSED", r.returncode, len(vio), concrete, time.time() - t0), flush=True)
+    # what broke: read the replay file(s) named on the VIOLATION lines
+    kinds, infra = {}, False
+    for l in vio:
+        m = re.search(r"replay=(\S+)", l)
+        if m and os.path.exists(m.group(1)):
+            for v in json.load(open(m.group(1))).get("violations", []):
+                k = v.get("kind", "?")
+                kinds[k] = kinds.get(k, 0) + 1
+                if "failed to build" in str(v.get("detail", "")) and "driver" in str(v.get("detail", "")):
+                    infra = True
+    res[d] = {"property": pid, "rc": r.returncode, "violations": len(vio), "concrete_input": concrete, "kinds": kinds,
+              "driver_build_failed": infra, "wall_s": round(time.time() - t0)}
+    print("%-40s %s rc=%d concrete=%s kinds=%s%s %ds" % (d, "CAUGHT" if ok else "MISSED", r.returncode, concrete, kinds,
+                                                       " DRIVER-BUILD-FAILED(check the harness!)" if infra else "", time.time() - t0), flush=True)
 json.dump(res, open(os.path.join(V, "seeded", "REGRESSION.json"), "w"), indent=1, sort_keys=True)
 print("caught %d / %d" % (sum(1 for v in res.values() if v["rc"] == 1 and v["violations"]), len(res)))
